@@ -54,6 +54,28 @@ theorem gaussian_fill_terminates (n : Int) (nrow ncol : Nat) (free : Grid) (s : 
   obtain ⟨fuel, hc⟩ := covering_prefix s hs
   exact ⟨fuel, fill_some_of_covers hc hf⟩
 
+/-- quantitative form: if every free cell shows up among the first `W` candidates, a feasible request is served
+within `W` candidates, and extending the prefix does not change the result (the kernel has returned) -/
+theorem gaussian_fill_terminates_within (n : Int) (nrow ncol : Nat) (free : Grid) (s : Nat → Int × Int) (W : Nat)
+    (hc : Covers nrow ncol free (streamPrefix s W)) (hf : n + 1 ≤ (cnt free : Int)) :
+    ∃ t, gaussianFill n nrow ncol free (zeros free.length) (streamPrefix s W) = some t ∧
+      ∀ more, gaussianFill n nrow ncol free (zeros free.length) (streamPrefix s W ++ more) = some t := by
+  have h := fill_some_of_covers (n := n) hc hf
+  cases hg : gaussianFill n nrow ncol free (zeros free.length) (streamPrefix s W) with
+  | none => rw [hg] at h; cases h
+  | some t => exact ⟨t, rfl, fun more => gaussianFill_stable hg more⟩
+
+/-- **Repeated candidates do not matter** — the split on a candidate list equals the split on its first
+occurrences (this is how arbitrarily long libc streams are replayed by the check) -/
+theorem gaussian_split_dedup (keep : Bool) (a0 a1 : Int) (nrow ncol : Nat) (mask acs : Grid) (c : Int)
+    (hl : acs.length = mask.length) (cs : List (Int × Int)) :
+    gaussianSplit keep a0 a1 nrow ncol mask acs c (dedup cs) = gaussianSplit keep a0 a1 nrow ncol mask acs c cs := by
+  unfold gaussianSplit
+  simp only
+  have e : (reducedMask keep mask acs).length = (freeMask keep a0 a1 nrow ncol mask acs).length := by
+    rw [length_reducedMask keep mask acs hl, length_freeMask keep a0 a1 nrow ncol mask acs hl]
+  rw [e, gaussianFill_dedup]
+
 /-- the repaired cap makes every request feasible -/
 theorem capped_request_feasible (c : Int) (free : Nat) : capRequest c free + 1 ≤ (free : Int) := by
   unfold capRequest; omega
@@ -344,59 +366,77 @@ theorem uniform_fill_pinned_violates : uniformFillPinned 0 (zeros 4) [] = .error
 /-! ## the half split (4 directions) -/
 
 /-- **Partition + protected region** for every direction, mask, ACS mask and protected-region size -/
-theorem half_split_partition (d : Dir) (keep : Bool) (a0 a1 : Int) (nrow ncol : Nat) (mask acs : Grid)
+theorem half_split_partition (d : Dir) (xs ys : List Int) (keep : Bool) (a0 a1 : Int) (nrow ncol : Nat) (mask acs : Grid)
     (hl : acs.length = mask.length) :
-    gOr (halfSplit d keep a0 a1 nrow ncol mask acs).1 (halfSplit d keep a0 a1 nrow ncol mask acs).2
+    gOr (halfSplit d xs ys keep a0 a1 nrow ncol mask acs).1 (halfSplit d xs ys keep a0 a1 nrow ncol mask acs).2
       = (if keep then gOr mask acs else mask) ∧
-    gAnd (halfSplit d keep a0 a1 nrow ncol mask acs).1 (halfSplit d keep a0 a1 nrow ncol mask acs).2
+    gAnd (halfSplit d xs ys keep a0 a1 nrow ncol mask acs).1 (halfSplit d xs ys keep a0 a1 nrow ncol mask acs).2
       = (if keep then acs else zeros mask.length) := by
-  have hp := length_halfParts d nrow ncol mask
+  have hp := length_halfParts d xs ys nrow ncol mask
   have hg := length_protectedGrid nrow ncol a0 a1 mask.length
   cases keep
   · simp only [halfSplit, Bool.false_eq_true, if_false]
-    have l1 : (gOr (halfParts d nrow ncol mask).1 (gAnd mask (protectedGrid nrow ncol a0 a1 mask.length))).length
+    have l1 : (gOr (halfParts d xs ys nrow ncol mask).1 (gAnd mask (protectedGrid nrow ncol a0 a1 mask.length))).length
         = mask.length := by simp [hp.1, hg]
-    have l2 : (gAndNot (halfParts d nrow ncol mask).2 (protectedGrid nrow ncol a0 a1 mask.length)).length
+    have l2 : (gAndNot (halfParts d xs ys nrow ncol mask).2 (protectedGrid nrow ncol a0 a1 mask.length)).length
         = mask.length := by simp [hp.2, hg]
-    have cellI : ∀ k, cell (gOr (halfParts d nrow ncol mask).1 (gAnd mask (protectedGrid nrow ncol a0 a1 mask.length))) k
-        = ((cell mask k && inputSide d nrow ncol (k / ncol) (k % ncol)) ||
+    have cellI : ∀ k, cell (gOr (halfParts d xs ys nrow ncol mask).1 (gAnd mask (protectedGrid nrow ncol a0 a1 mask.length))) k
+        = ((cell mask k && inputSideC d xs ys nrow ncol (k / ncol) (k % ncol)) ||
            (cell mask k && cell (protectedGrid nrow ncol a0 a1 mask.length) k)) := fun k => by
-      rw [cell_gOr _ _ (by simp [hp.1, hg]), cell_gAnd _ _ hg.symm, (cell_halfParts d nrow ncol mask k).1]
-    have cellT : ∀ k, cell (gAndNot (halfParts d nrow ncol mask).2 (protectedGrid nrow ncol a0 a1 mask.length)) k
-        = ((cell mask k && !inputSide d nrow ncol (k / ncol) (k % ncol)) &&
+      rw [cell_gOr _ _ (by simp [hp.1, hg]), cell_gAnd _ _ hg.symm, (cell_halfParts d xs ys nrow ncol mask k).1]
+    have cellT : ∀ k, cell (gAndNot (halfParts d xs ys nrow ncol mask).2 (protectedGrid nrow ncol a0 a1 mask.length)) k
+        = ((cell mask k && !inputSideC d xs ys nrow ncol (k / ncol) (k % ncol)) &&
            !cell (protectedGrid nrow ncol a0 a1 mask.length) k) := fun k => by
-      rw [cell_gAndNot _ _ (by simp [hp.2, hg]), (cell_halfParts d nrow ncol mask k).2]
+      rw [cell_gAndNot _ _ (by simp [hp.2, hg]), (cell_halfParts d xs ys nrow ncol mask k).2]
     constructor
     · apply eq_of_cells _ _ (by simp [l1, l2])
       intro k
       rw [cell_gOr _ _ (by rw [l1, l2]), cellI, cellT]
-      cases cell mask k <;> cases inputSide d nrow ncol (k / ncol) (k % ncol) <;>
+      cases cell mask k <;> cases inputSideC d xs ys nrow ncol (k / ncol) (k % ncol) <;>
         cases cell (protectedGrid nrow ncol a0 a1 mask.length) k <;> rfl
     · apply eq_of_cells _ _ (by simp [l1, l2])
       intro k
       rw [cell_gAnd _ _ (by rw [l1, l2]), cellI, cellT, cell_zeros]
-      cases cell mask k <;> cases inputSide d nrow ncol (k / ncol) (k % ncol) <;>
+      cases cell mask k <;> cases inputSideC d xs ys nrow ncol (k / ncol) (k % ncol) <;>
         cases cell (protectedGrid nrow ncol a0 a1 mask.length) k <;> rfl
   · simp only [halfSplit, if_true]
-    have l1 : (gOr (halfParts d nrow ncol mask).1 acs).length = mask.length := by simp [hp.1, hl]
-    have l2 : (gOr (halfParts d nrow ncol mask).2 acs).length = mask.length := by simp [hp.2, hl]
+    have l1 : (gOr (halfParts d xs ys nrow ncol mask).1 acs).length = mask.length := by simp [hp.1, hl]
+    have l2 : (gOr (halfParts d xs ys nrow ncol mask).2 acs).length = mask.length := by simp [hp.2, hl]
     constructor
     · apply eq_of_cells _ _ (by simp [l1, l2, hl])
       intro k
       rw [cell_gOr _ _ (by rw [l1, l2]), cell_gOr _ _ (by rw [hp.1, hl]), cell_gOr _ _ (by rw [hp.2, hl]),
-        cell_gOr _ _ hl.symm, (cell_halfParts d nrow ncol mask k).1, (cell_halfParts d nrow ncol mask k).2]
-      cases cell mask k <;> cases inputSide d nrow ncol (k / ncol) (k % ncol) <;> cases cell acs k <;> rfl
+        cell_gOr _ _ hl.symm, (cell_halfParts d xs ys nrow ncol mask k).1, (cell_halfParts d xs ys nrow ncol mask k).2]
+      cases cell mask k <;> cases inputSideC d xs ys nrow ncol (k / ncol) (k % ncol) <;> cases cell acs k <;> rfl
     · apply eq_of_cells _ _ (by simp [l1, l2, hl])
       intro k
       rw [cell_gAnd _ _ (by rw [l1, l2]), cell_gOr _ _ (by rw [hp.1, hl]), cell_gOr _ _ (by rw [hp.2, hl]),
-        (cell_halfParts d nrow ncol mask k).1, (cell_halfParts d nrow ncol mask k).2]
-      cases cell mask k <;> cases inputSide d nrow ncol (k / ncol) (k % ncol) <;> cases cell acs k <;> rfl
+        (cell_halfParts d xs ys nrow ncol mask k).1, (cell_halfParts d xs ys nrow ncol mask k).2]
+      cases cell mask k <;> cases inputSideC d xs ys nrow ncol (k / ncol) (k % ncol) <;> cases cell acs k <;> rfl
 
-theorem half_protected_in_input (d : Dir) (a0 a1 : Int) (nrow ncol : Nat) (mask acs : Grid) (k : Nat)
+/-- on the exact `linspace` fractions the coordinate form of the side test is the rational one that the
+bridge ties to the source -/
+theorem inputSideC_exact (d : Dir) (nrow ncol i j : Nat) (hi : i < nrow) (hj : j < ncol) :
+    inputSideC d (exactXs nrow ncol) (exactYs nrow ncol) nrow ncol i j = inputSide d nrow ncol i j := by
+  have hx : (exactXs nrow ncol).getD i 0 = coordNum nrow i * coordDen ncol := by
+    simp [exactXs, List.getD_eq_getElem?_getD, hi]
+  have hy : (exactYs nrow ncol).getD j 0 = coordNum ncol j * coordDen nrow := by
+    simp [exactYs, List.getD_eq_getElem?_getD, hj]
+  cases d <;> simp only [inputSideC, inputSide, hx, hy]
+
+/-- **float32 vs exact diagonals.**  With all coordinates on one integer scale: if the float32 coordinates are
+within `err` of the exact ones and the exact sum is farther than `2·err` from 0, both give the same side —
+the two splits can differ only on cells whose exact coordinates cancel (the anti-diagonal) -/
+theorem diag_float_agrees_off_boundary (fx fy ex ey err : Int) (hx : fx - ex ≤ err ∧ ex - fx ≤ err)
+    (hy : fy - ey ≤ err ∧ ey - fy ≤ err) (hb : 2 * err < ex + ey ∨ ex + ey < -(2 * err)) :
+    (fx + fy ≤ 0 ↔ ex + ey ≤ 0) ∧ (fx - (-fy) ≤ 0 ↔ ex - (-ey) ≤ 0) := by
+  constructor <;> constructor <;> intro h <;> omega
+
+theorem half_protected_in_input (d : Dir) (xs ys : List Int) (a0 a1 : Int) (nrow ncol : Nat) (mask acs : Grid) (k : Nat)
     (hp : protectedCell nrow ncol a0 a1 k = true) (hm : cell mask k = true) :
-    cell (halfSplit d false a0 a1 nrow ncol mask acs).1 k = true ∧
-    cell (halfSplit d false a0 a1 nrow ncol mask acs).2 k = false := by
-  have hl := length_halfParts d nrow ncol mask
+    cell (halfSplit d xs ys false a0 a1 nrow ncol mask acs).1 k = true ∧
+    cell (halfSplit d xs ys false a0 a1 nrow ncol mask acs).2 k = false := by
+  have hl := length_halfParts d xs ys nrow ncol mask
   have hg := length_protectedGrid nrow ncol a0 a1 mask.length
   have hk := cell_true_lt _ _ hm
   simp only [halfSplit, Bool.false_eq_true, if_false]
@@ -408,7 +448,7 @@ theorem half_protected_in_input (d : Dir) (a0 a1 : Int) (nrow ncol : Nat) (mask 
 the protected centre cell (3, 3) is in the target -/
 theorem half_split_pinned_violates :
     protectedCell 6 6 4 4 21 = true ∧
-      cell (halfSplitPinned .horizontal false 6 6 (List.replicate 36 true) (zeros 36)).2 21 = true := by decide
+      cell (halfSplitPinned .horizontal [] [] false 6 6 (List.replicate 36 true) (zeros 36)).2 21 = true := by decide
 
 /-! ## `forward`: k-spaces, seeds, determinism -/
 
@@ -465,6 +505,43 @@ theorem seed_of_concat (f₁ s₁ f₂ s₂ : List Nat) (h : f₁ ++ s₁ = f₂
     gaussianSeed (seedTuple f₁ s₁) = gaussianSeed (seedTuple f₂ s₂) := by
   simp only [seedTuple, h]
 
+/-! ## the SSL branch around the splitter -/
+
+/-- **Key plumbing.**  For every transform tail and engine key table that pass the decidable check `plumbingOk`
+(`Bridge/C11.lean` shows the tables read from `/repo` pass it, for keep_acs on and off): the k-space the
+network is trained on is the masked k-space restricted to the input mask, and the reference of the k-space
+loss is the masked k-space restricted to the target mask. -/
+theorem ssl_plumbing_sound (tail : List KeyOp) (r : EngineReads) (h : plumbingOk tail r = true) (e : Env) :
+    ∃ s, runOps tail preTail = some s ∧
+      (sget s r.trainK).bind (denoteK e) = some (applyMaskK e.cells e.input e.masked) ∧
+      (sget s r.lossK).bind (denoteK e) = some (applyMaskK e.cells e.target e.masked) ∧
+      sget s r.trainMask = some (.splitMask true) ∧ sget s r.project = some (.splitMask false) ∧
+      sget s r.lossImage = some (.image (.restr false .maskedK)) := by
+  unfold plumbingOk at h
+  split at h
+  · cases h
+  · rename_i s hs
+    simp only [Bool.and_eq_true, beq_iff_eq] at h
+    obtain ⟨⟨⟨⟨⟨⟨h1, h2⟩, h3⟩, h4⟩, h5⟩, _⟩, _⟩ := h
+    refine ⟨s, hs, ?_, ?_, h2, h3, h5⟩
+    · rw [h1]; simp [denoteK]
+    · rw [h4]; simp [denoteK]
+
+/-- **What the k-space loss sees** (training step of the SSL engines): entry by entry, the projected
+prediction minus the reference is `pred - k` on target cells that were held out from the input, and exactly
+`0` everywhere else — off the target mask both are 0, on cells kept in both masks (ACS) data consistency
+reproduces the measurement. -/
+theorem ssl_loss_support (cells : Nat) (i t : Grid) (k pred : List Int) (hc : 0 < cells) (hi : i.length = cells)
+    (hp : pred.length = k.length) (idx : Nat) :
+    (sslOutput cells i t (applyMaskK cells i k) pred).getD idx 0 - (applyMaskK cells t k).getD idx 0 =
+      if cell t ((idx / 2) % cells) && !cell i ((idx / 2) % cells) then pred.getD idx 0 - k.getD idx 0 else 0 := by
+  have hlt : (idx / 2) % cells < i.length := by rw [hi]; exact Nat.mod_lt _ hc
+  unfold sslOutput
+  rw [getD_applyMaskK, getD_applyMaskK,
+    getD_zipWith_add _ _ (by rw [length_applyMaskK, length_applyMaskK, hp]), getD_applyMaskK, getD_applyMaskK,
+    cell_gNot i _ hlt]
+  cases cell t ((idx / 2) % cells) <;> cases cell i ((idx / 2) % cells) <;> simp
+
 /-! ## non-vacuity: the hypotheses are met by concrete runs of the same definitions -/
 
 /-- 2×3 grid, 5 sampled cells: concrete Gaussian runs (plain, keep_acs, protected region + capped request) -/
@@ -486,10 +563,10 @@ example : uniformSplit false 0 0 2 3 [true, true, false, true, true, true] (zero
     .ok ([false, true, false, true, false, true], [true, false, false, false, true, false]) := by decide
 example : uniformSplit false 2 2 2 2 [true, true, true, true] (zeros 4) 0 [] =
     .ok ([true, true, true, true], [false, false, false, false]) := by decide
-example : halfSplit .diagRight false 0 0 3 3 (List.replicate 9 true) (zeros 9) =
+example : halfSplit .diagRight (exactXs 3 3) (exactYs 3 3) false 0 0 3 3 (List.replicate 9 true) (zeros 9) =
     ([true, true, true, true, true, false, true, false, false],
      [false, false, false, false, false, true, false, true, true]) := by decide
-example : halfSplit .horizontal false 2 2 4 4 (List.replicate 16 true) (zeros 16) =
+example : halfSplit .horizontal [] [] false 2 2 4 4 (List.replicate 16 true) (zeros 16) =
     ([true, true, true, true, true, true, true, true, false, true, true, false, false, false, false, false],
      [false, false, false, false, false, false, false, false, true, false, false, true, true, true, true, true]) := by
   decide
@@ -503,8 +580,20 @@ example : ∃ (src : Sources) (cfg : Cfg) (a₁ a₂ : Ambient), cfg.useSeed = f
    { entropy := [], globalDraw := 0 }, { entropy := [], globalDraw := 1 }, rfl, by decide⟩
 /-- the wrap-around of an over-sized protected region (outside the property's quantifier): on a 10-axis
 `acs_region = 14` protects indices 8, 9 only -/
+example : plumbingOk
+    [.addFlag "is_ssl" true, .split "masked_kspace" false "input_" "target_" "sampling_mask" "acs_mask",
+     .delete ["acs_mask"], .rename ["input_masked_kspace", "target_masked_kspace"] ["input_kspace", "kspace"],
+     .delete ["masked_kspace", "sampling_mask"], .computeImage "kspace" "target"]
+    { trainK := "input_kspace", trainMask := "input_sampling_mask", evalK := "masked_kspace", evalMask := "sampling_mask",
+      project := "target_sampling_mask", lossK := "kspace", lossImage := "target" } = true := by decide
+/-- a tail that forgets the rename leaves the fully sampled k-space under the loss key: rejected -/
+example : plumbingOk
+    [.addFlag "is_ssl" true, .split "masked_kspace" false "input_" "target_" "sampling_mask" "acs_mask"]
+    { trainK := "input_kspace", trainMask := "input_sampling_mask", evalK := "masked_kspace", evalMask := "sampling_mask",
+      project := "target_sampling_mask", lossK := "kspace", lossImage := "target" } = false := by decide
 example : regionIdx 10 14 = [8, 9] := by decide
 example : regionIdx 10 4 = [3, 4, 5, 6] := by decide
+example : dedup [(0, 0), (5, 5), (0, 0), (1, 2), (5, 5)] = [(0, 0), (5, 5), (1, 2)] := by decide
 example : regionIdx 7 7 = [0, 1, 2, 3, 4, 5] := by decide
 
 end DirectVerif.C11
